@@ -46,8 +46,13 @@ for name, d in zip(args[0::2], args[1::2]):
         cls, meth = b.split("::")
         parts = cls.split(".")
         path = "/".join(parts[:-1]) + ".py::" + parts[-1] + "::" + meth
-        r = subprocess.run(["/venv/bin/python", "-m", "pytest", "-q", "-p", "no:cacheprovider", "--timeout=900", path], cwd=w, env=env, capture_output=True, text=True)
-        if r.returncode != 0:
+        ok = False
+        for _ in range(3):   # a few tests are sampling-based and unseeded: up to three attempts alone
+            r = subprocess.run(["/venv/bin/python", "-m", "pytest", "-q", "-p", "no:cacheprovider", "--timeout=900", path], cwd=w, env=env, capture_output=True, text=True)
+            if r.returncode == 0:
+                ok = True
+                break
+        if not ok:
             still.append(b)
     verdict = f"ran {len(seen)} tests, {len(passed)} passed; stable-pass tests not passing: {len(still)} (failed under xdist but passed alone: {len(bad) - len(still)})"
     open(log, "w").write(verdict + "\n" + "\n".join(still) + "\n")
